@@ -1869,6 +1869,53 @@ impl<'a> Gen<'a> {
         }
     }
 
+    /// Anonymous function-like expressions in every position where the engine infers a `name` for them
+    /// (property values under reserved-word keys, variable initialisers, assignment right-hand sides,
+    /// destructuring defaults, class fields incl. private ones). An inferred name is not a binding: the
+    /// body can still assign the outer variable of that name, and a reserved word is a legal inferred name.
+    fn stmt_anon_naming(&mut self, out: &mut String) {
+        self.kinds.insert("anon-naming");
+        self.label("anon-naming");
+        let id = self.fresh("an");
+        let kinds = ["function", "function*", "async function", "async function*"];
+        let k = *self.t.pick(&kinds);
+        let is_gen = k.ends_with('*');
+        let is_async = k.starts_with("async");
+        let drive = |f: &str| -> String {
+            match (is_gen, is_async) {
+                (false, false) => format!("print(show({f}()));"),
+                (true, false) => format!("print(show([...{f}()]));"),
+                (false, true) => format!("{f}(); print(typeof {f});"),
+                (true, true) => format!("{f}().next(); print(typeof {f});"),
+            }
+        };
+        let y = if is_gen { "yield " } else { "return " };
+        match self.t.below(6) {
+            0 => {
+                let key = *self.t.pick(&["return", "default", "new", "delete", "class", "if", "yield", "await", "null", "true", "typeof", "function", "this", "in", "let", "static", "get", "async"]);
+                out.push_str(&format!("var {id} = {{ {key}: {k} () {{ {y}1; }}, other: class {{}} , arrow: () => 1 }};\nprint({id}.{key}.name, {id}.other.name, {id}.arrow.name);\n{}\n", drive(&format!("{id}.{key}"))));
+            }
+            1 => {
+                // the body assigns the variable it is stored in
+                let decl = *self.t.pick(&["let", "var"]);
+                out.push_str(&format!("{decl} {id} = {k} () {{ {id} = 1; {y}typeof {id}; }};\nprint({id}.name);\ntry {{ {} }} catch (e) {{ print(show(e)); }}\nprint(typeof {id});\n", drive(&id)));
+            }
+            2 => {
+                out.push_str(&format!("var {id}; {id} = {k} () {{ {y}typeof {id}; }};\nprint({id}.name);\n{}\n", drive(&id)));
+            }
+            3 => {
+                out.push_str(&format!("var {{ {id} = {k} () {{ {y}2; }} }} = {{}};\nprint({id}.name);\n{}\n", drive(&id)));
+            }
+            4 => {
+                out.push_str(&format!("class C{id} {{ static {id} = {k} () {{ {y}3; }}; #p{id} = {k} () {{ {y}4; }}; static default = {k} () {{ {y}5; }}; pn() {{ return this.#p{id}.name; }} }}\nprint(C{id}.{id}.name, C{id}.default.name, new C{id}().pn());\n{}\n", drive(&format!("C{id}.{id}"))));
+            }
+            _ => {
+                // class expression: the inferred name is not an inner binding either
+                out.push_str(&format!("let {id} = class {{ static m() {{ {id} = 7; return typeof {id}; }} }};\nprint({id}.name);\nprint({id}.m(), typeof {id});\n"));
+            }
+        }
+    }
+
     fn stmt_iterable(&mut self, out: &mut String) {
         if !self.spend(40) {
             return self.stmt_print(out);
@@ -1953,9 +2000,10 @@ impl<'a> Gen<'a> {
             o.w_closure / 2,     // captured block-scoped binding (thunk called at program end)
             o.w_try / 2,         // abrupt exits through nested capturing scopes
             o.w_collections + 1, // Map/Set mutated under live and abandoned iterators
+            o.w_class / 2 + 1,   // anonymous functions/classes in name-inferring positions
         ];
         let mut choice = self.t.weighted(&weights);
-        if self.in_finally > 0 && self.o.excl_f17_catch_in_finally && matches!(choice, 6 | 9 | 11 | 16 | 7 | 8 | 19 | 21) {
+        if self.in_finally > 0 && self.o.excl_f17_catch_in_finally && matches!(choice, 6 | 9 | 11 | 16 | 7 | 8 | 19 | 21 | 23) {
             // F17: an exception caught inside a finally block corrupts the pending completion
             // (templates 6/9/11/16 contain try/catch; 7/8 call functions right away, and a callee
             // that throws would be caught by an enclosing catch of this function)
@@ -1985,6 +2033,7 @@ impl<'a> Gen<'a> {
             20 => self.stmt_capture(out),
             21 => self.stmt_scope_exit(out),
             22 => self.stmt_map_iter(out),
+            23 => self.stmt_anon_naming(out),
             _ => self.stmt_return_or_throw(out),
         }
     }
